@@ -4,7 +4,8 @@
 //!   doc  = `D<n>;vm=<m>,…;a0=<e>,…;a1=…;a2=…;a3=…;a4=…;sv=<s>,…`   (a0..a4 = authentication, assertionMethod,
 //!          keyAgreement, capabilityDelegation, capabilityInvocation)
 //!   m, s = `<did>.<pq>.<frag>.<body>`      e = `E<m>` (embedded) | `R<did>.<pq>.<frag>` (reference)    frag `~` = none
-//!   `J`: the start document is deserialised from JSON; `B`: built through `DocumentBuilder`
+//!   `J`: the start document is deserialised from JSON; `B`: built through `DocumentBuilder`; `I`: an `IotaDocument`
+//!        deserialised from JSON (ids are IOTA DIDs), driven through IotaDocument's own mutators
 //!   op   = `im:<scope>:<m>` | `rm:<id>` | `is:<s>` | `rs:<id>` | `at:<form>:<id>:<rel>` | `dt:<form>:<id>:<rel>`
 //!          | `S` (print the state) | `Q:<nd>:<np>:<nf>` (resolution battery over the id universe)
 //!   form = `F` (&DIDUrl) | `S` (its string) | `H` (`#fragment`) | `B` (bare fragment)
@@ -55,7 +56,7 @@ pub(crate) fn pq_str(pq: u32) -> &'static str {
 pub(crate) fn did_str(d: u32) -> String {
   let kind = KIND.with(|k| k.get());
   if kind == 'I' {
-    format!("did:iota:0x{}", format!("{:02x}", (d * 0x11) as u8).repeat(32))
+    format!("did:iota:0x{}", format!("{:02x}", if d >= 50 { 0xf0 + (d - 50) as u8 } else { (d * 0x11) as u8 }).repeat(32))
   } else if kind == 'J' {
     // DIDs 50.. are of another method with the same method-specific ids: did:alt:i<n-50>
     if d >= 50 {
@@ -89,7 +90,7 @@ pub(crate) fn parse_idb(t: &str) -> Option<(Id, u32)> {
 pub(crate) fn id_of(u: &DIDUrl) -> Id {
   let mid = u.did().method_id();
   let did = match mid.strip_prefix("0x") {
-    Some(h) if h.len() >= 2 => u32::from_str_radix(&h[..2], 16).map(|b| b / 0x11).unwrap_or(999),
+    Some(h) if h.len() >= 2 => u32::from_str_radix(&h[..2], 16).map(|b| if b >= 0xf0 { 50 + b - 0xf0 } else { b / 0x11 }).unwrap_or(999),
     _ => mid.trim_start_matches(|c| c == 'd' || c == 'i').parse::<u32>().map(|n| if u.did().method() == "alt" { n + 50 } else { n }).unwrap_or(999),
   };
   let pq = match (u.path().filter(|p| !p.is_empty()), u.query().filter(|q| !q.is_empty())) {
@@ -393,6 +394,95 @@ fn battery(d: &CoreDocument, nd: u32, np: u32, nf: u32, fail: &mut Option<String
   format!("Q={};{};{}", meth.join(","), svc.join(","), ms.join(","))
 }
 
+/// the mutators and the checked state of a document type the histories run against: `CoreDocument` itself, and
+/// `IotaDocument`, whose mutators are meant to be the same operations on the wrapped document
+pub(crate) trait DocLike: Clone + PartialEq {
+  fn core(&self) -> &CoreDocument;
+  fn im(&mut self, m: VerificationMethod, s: MethodScope) -> Result<(), DocError>;
+  fn rm(&mut self, u: &DIDUrl) -> Option<(VerificationMethod, MethodScope)>;
+  fn is(&mut self, s: Service) -> Result<(), DocError>;
+  fn rs(&mut self, u: &DIDUrl) -> Option<Service>;
+  fn at_url(&mut self, u: &DIDUrl, r: MethodRelationship) -> Result<bool, DocError>;
+  fn at_str(&mut self, q: &str, r: MethodRelationship) -> Result<bool, DocError>;
+  fn dt_url(&mut self, u: &DIDUrl, r: MethodRelationship) -> Result<bool, DocError>;
+  fn dt_str(&mut self, q: &str, r: MethodRelationship) -> Result<bool, DocError>;
+  /// the document's own JSON form parses back to an equal document
+  fn json_roundtrip(&self) -> bool;
+}
+impl DocLike for CoreDocument {
+  fn core(&self) -> &CoreDocument {
+    self
+  }
+  fn im(&mut self, m: VerificationMethod, s: MethodScope) -> Result<(), DocError> {
+    self.insert_method(m, s)
+  }
+  fn rm(&mut self, u: &DIDUrl) -> Option<(VerificationMethod, MethodScope)> {
+    self.remove_method_and_scope(u)
+  }
+  fn is(&mut self, s: Service) -> Result<(), DocError> {
+    self.insert_service(s)
+  }
+  fn rs(&mut self, u: &DIDUrl) -> Option<Service> {
+    self.remove_service(u)
+  }
+  fn at_url(&mut self, u: &DIDUrl, r: MethodRelationship) -> Result<bool, DocError> {
+    self.attach_method_relationship(u, r)
+  }
+  fn at_str(&mut self, q: &str, r: MethodRelationship) -> Result<bool, DocError> {
+    self.attach_method_relationship(q, r)
+  }
+  fn dt_url(&mut self, u: &DIDUrl, r: MethodRelationship) -> Result<bool, DocError> {
+    self.detach_method_relationship(u, r)
+  }
+  fn dt_str(&mut self, q: &str, r: MethodRelationship) -> Result<bool, DocError> {
+    self.detach_method_relationship(q, r)
+  }
+  fn json_roundtrip(&self) -> bool {
+    true
+  }
+}
+fn iota_err(e: identity_iota_core::Error) -> DocError {
+  match e {
+    identity_iota_core::Error::InvalidDoc(d) => d,
+    _ => DocError::InvalidDocument("not a document error", None),
+  }
+}
+impl DocLike for identity_iota_core::IotaDocument {
+  fn core(&self) -> &CoreDocument {
+    self.core_document()
+  }
+  fn im(&mut self, m: VerificationMethod, s: MethodScope) -> Result<(), DocError> {
+    self.insert_method(m, s).map_err(iota_err)
+  }
+  fn rm(&mut self, u: &DIDUrl) -> Option<(VerificationMethod, MethodScope)> {
+    self.remove_method_and_scope(u)
+  }
+  fn is(&mut self, s: Service) -> Result<(), DocError> {
+    self.insert_service(s).map_err(iota_err)
+  }
+  fn rs(&mut self, u: &DIDUrl) -> Option<Service> {
+    self.remove_service(u)
+  }
+  fn at_url(&mut self, u: &DIDUrl, r: MethodRelationship) -> Result<bool, DocError> {
+    self.attach_method_relationship(u, r).map_err(iota_err)
+  }
+  fn at_str(&mut self, q: &str, r: MethodRelationship) -> Result<bool, DocError> {
+    self.attach_method_relationship(q, r).map_err(iota_err)
+  }
+  fn dt_url(&mut self, u: &DIDUrl, r: MethodRelationship) -> Result<bool, DocError> {
+    self.detach_method_relationship(u, r).map_err(iota_err)
+  }
+  fn dt_str(&mut self, q: &str, r: MethodRelationship) -> Result<bool, DocError> {
+    self.detach_method_relationship(q, r).map_err(iota_err)
+  }
+  fn json_roundtrip(&self) -> bool {
+    match self.to_json() {
+      Ok(j) => identity_iota_core::IotaDocument::from_json(&j).map(|d| d == *self).unwrap_or(false),
+      Err(_) => false,
+    }
+  }
+}
+
 pub fn run(args: &[&str]) -> String {
   if args.len() < 2 || args[0] != "hist" {
     return "bad-request".into();
@@ -402,22 +492,39 @@ pub fn run(args: &[&str]) -> String {
     Some(s) => s,
     None => return "bad-request".into(),
   };
-  let doc = match kind {
-    "J" => doc_from_json(&spec),
-    "B" => doc_from_builder(&spec),
-    _ => return "bad-request".into(),
-  };
-  let mut doc = match doc {
-    Some(d) => d,
-    None => return "start:reject".into(),
-  };
-  let mut fail: Option<String> = None;
-  check_after(&doc, &mut fail, "start");
-  let mut out = vec!["start:ok".to_string()];
   let ops = if args.get(2) == Some(&"|") { &args[3..] } else { &args[2..] };
+  match kind {
+    "J" | "B" => {
+      let doc = if kind == "J" { doc_from_json(&spec) } else { doc_from_builder(&spec) };
+      match doc {
+        Some(d) => run_on(d, ops),
+        None => "start:reject".into(),
+      }
+    }
+    // the same history against an IotaDocument (ids are IOTA DIDs); the start document comes from its JSON form
+    "I" => {
+      KIND.with(|k| k.set('I'));
+      let spec = parse_spec(spec_s);
+      let doc = spec.and_then(|sp| identity_iota_core::IotaDocument::from_json(&format!(r#"{{"doc":{},"meta":{{}}}}"#, doc_json(&sp))).ok());
+      let r = match doc {
+        Some(d) => run_on(d, ops),
+        None => "start:reject".into(),
+      };
+      KIND.with(|k| k.set('C'));
+      r
+    }
+    _ => "bad-request".into(),
+  }
+}
+
+fn run_on<D: DocLike>(doc: D, ops: &[&str]) -> String {
+  let mut doc = doc;
+  let mut fail: Option<String> = None;
+  check_after(doc.core(), &mut fail, "start");
+  let mut out = vec!["start:ok".to_string()];
   for t in ops {
     if *t == "S" {
-      out.push(show_doc(&doc));
+      out.push(show_doc(doc.core()));
       continue;
     }
     let p: Vec<&str> = t.split(':').collect();
@@ -425,14 +532,14 @@ pub fn run(args: &[&str]) -> String {
     let mut refused = false;
     let res: Option<String> = match p.as_slice() {
       ["Q", a, b, c] => match (a.parse(), b.parse(), c.parse()) {
-        (Ok(nd), Ok(np), Ok(nf)) => Some(battery(&doc, nd, np, nf, &mut fail)),
+        (Ok(nd), Ok(np), Ok(nf)) => Some(battery(doc.core(), nd, np, nf, &mut fail)),
         _ => None,
       },
       ["im", s, m] => (|| {
         let (i, b) = parse_idb(m)?;
         let sc = scope_of(s)?;
         let m = mk_method(i, b)?;
-        Some(match doc.insert_method(m, sc) {
+        Some(match doc.im(m, sc) {
           Ok(()) => "ok".to_string(),
           Err(_) => {
             refused = true;
@@ -442,7 +549,7 @@ pub fn run(args: &[&str]) -> String {
       })(),
       ["rm", i] => (|| {
         let u = mk_url(parse_id(i)?)?;
-        Some(match doc.remove_method_and_scope(&u) {
+        Some(match doc.rm(&u) {
           None => "none".to_string(),
           Some((m, s)) => format!("{}@{}", show_method(&m), show_scope(s)),
         })
@@ -450,7 +557,7 @@ pub fn run(args: &[&str]) -> String {
       ["is", s] => (|| {
         let (i, b) = parse_idb(s)?;
         let s = mk_service(i, b)?;
-        Some(match doc.insert_service(s) {
+        Some(match doc.is(s) {
           Ok(()) => "ok".to_string(),
           Err(_) => {
             refused = true;
@@ -460,7 +567,7 @@ pub fn run(args: &[&str]) -> String {
       })(),
       ["rs", i] => (|| {
         let u = mk_url(parse_id(i)?)?;
-        Some(match doc.remove_service(&u) {
+        Some(match doc.rs(&u) {
           None => "none".to_string(),
           Some(s) => show_service(&s),
         })
@@ -472,16 +579,16 @@ pub fn run(args: &[&str]) -> String {
         let result = if *form == "F" {
           let u = mk_url(i)?;
           if attach {
-            doc.attach_method_relationship(&u, rel)
+            doc.at_url(&u, rel)
           } else {
-            doc.detach_method_relationship(&u, rel)
+            doc.dt_url(&u, rel)
           }
         } else {
           let q = query_strings(form, i)?;
           if attach {
-            doc.attach_method_relationship(q.as_str(), rel)
+            doc.at_str(q.as_str(), rel)
           } else {
-            doc.detach_method_relationship(q.as_str(), rel)
+            doc.dt_str(q.as_str(), rel)
           }
         };
         Some(match result {
@@ -510,7 +617,10 @@ pub fn run(args: &[&str]) -> String {
       if refused && doc != before && fail.is_none() {
         fail = Some(format!("refused-changed:{} was refused but changed the document", t));
       }
-      check_after(&doc, &mut fail, t);
+      check_after(doc.core(), &mut fail, t);
+      if fail.is_none() && !doc.json_roundtrip() {
+        fail = Some(format!("roundtrip:after {} the document's own JSON form does not parse back to an equal document", t));
+      }
     }
   }
   let line = out.join(" ");
@@ -634,6 +744,13 @@ pub fn gen(thorough: bool, seed: u64, out: &mut impl Write) {
       ops.push("Q:2:3:3".to_string());
     }
     writeln!(out, "C04 hist {}{} | {}", if k % 5 == 0 { "B" } else { "J" }, start, ops.join(" ")).unwrap();
+    // every third history also against an IotaDocument (its mutators are meant to be the same operations)
+    if k % 3 == 1 {
+      writeln!(out, "C04 hist I{} | {}", start, ops.join(" ")).unwrap();
+    }
+  }
+  for s in &fixed {
+    writeln!(out, "C04 hist I{} | S Q:2:3:3", s).unwrap();
   }
   // (c) exhaustive histories over a small universe chosen for collisions: same DID and fragment with and
   // without a path, and a foreign DID with the same fragment
